@@ -19,7 +19,8 @@ use uom::si::velocity::meter_per_second;
 
 fn decode_body(body: &[u8]) -> Result<Message, String> {
     match mon::catch(|| decode_volume_coverage_pattern(&mut &body[..])) {
-        Ok(Ok(m)) => Ok(m),
+        // (every third result is handed on as a clone: a copy holds what the original holds)
+        Ok(Ok(m)) => Ok(if body.len() % 3 == 1 { m.clone() } else { m }),
         Ok(Err(e)) => Err(format!("error {e:?}")),
         Err(p) => Err(p.signature()),
     }
@@ -352,6 +353,46 @@ fn check_summary(obs: &mut Obs, spec: &Vcp, rng: &mut Rng, replay: &serde_json::
                 && e.azimuth_rate == rate(c.az_rate)
                 && e.super_resolution_features.len() == (c.super_res & 0xF).count_ones() as usize
         });
+    // the same pattern sent again at once with another cut table (SAILS switched on, a cut
+    // changed): two messages, two summaries - the second mirrors the second message
+    if ok && rng.chance(1, 3) && !spec.cuts.is_empty() {
+        let mut again = spec.clone();
+        again.hdr.supplemental ^= 1 | (3 << 1);
+        if let Some(c) = again.cuts.last_mut() {
+            c.angle = c.angle.wrapping_add(8 * 40);
+            c.az_rate ^= 0x0100;
+        }
+        let mh2 = MsgHeader::realistic(rng, 5);
+        let mut stream = frame.clone();
+        stream.extend_from_slice(&enc::frame(&mh2, &again.encode(), rng.u8()));
+        match mon::catch(|| decode_messages(&mut Cursor::new(&stream[..])).map(|m| nexrad_decode::summarize::messages(&m))) {
+            Ok(Ok(sum)) => {
+                // whichever way the two messages are grouped, the VCP info reported for the *last*
+                // VCP message must be that message's
+                let last_info = sum.message_groups.iter().rev().find_map(|g| g.vcp_info.clone());
+                let s2 = again.hdr.supplemental;
+                let mirrors = last_info.as_ref().map(|i| {
+                    i.elevations.len() == again.cuts.len()
+                        && i.elevations.last().map(|e| e.elevation_angle == angle(again.cuts[again.cuts.len() - 1].angle) && e.azimuth_rate == rate(again.cuts[again.cuts.len() - 1].az_rate)).unwrap_or(false)
+                        && i.vcp_features.iter().any(|f| f.starts_with("SAILS")) == (s2 & 1 != 0)
+                });
+                let groups_with_info = sum.message_groups.iter().filter(|g| g.vcp_info.is_some()).count();
+                if mirrors != Some(true) || groups_with_info != 2 {
+                    obs.violation(
+                        "summary of a repeated pattern number does not mirror the second message",
+                        format!("{} groups with VCP info; last info {:?}", groups_with_info, last_info.map(|i| (i.pattern_number, i.vcp_features, i.elevations.len()))),
+                        replay.clone(),
+                    );
+                    return;
+                }
+                obs.count("repeated_pattern_numbers_summarised_separately", 1);
+            }
+            other => {
+                obs.violation("two type-5 frames do not decode and summarise", format!("{:?}", other.map(|r| r.is_ok())), replay.clone());
+                return;
+            }
+        }
+    }
     if ok {
         obs.count("summaries_mirror_accessors", 1);
     } else {
@@ -405,6 +446,22 @@ distinct = distinct (cut count, layout seed) and raw values; oracle = fields at 
                     replay.clone(),
                 ),
             }
+            // ... nor may a reader that fails once, transiently, inside the message make the decoder
+            // start over: an error is fine, the right message is fine
+            if rep % 2 == 0 {
+                if let Ok(clean) = decode_body(&body) {
+                    match super::decode_through_flaky_reader(&body, mix(n as u64 + 7, rep), |rd| decode_volume_coverage_pattern(rd)) {
+                        Err(p) => ctx.obs.violation("decode_volume_coverage_pattern panics with a reader that fails transiently", p, replay.clone()),
+                        Ok(Some(m2)) if m2 != clean || format!("{:?}", m2) != format!("{:?}", clean) => ctx.obs.violation(
+                            "a transient read error inside the message yields a message decoded from other bytes",
+                            format!("{} cuts", n),
+                            replay.clone(),
+                        ),
+                        Ok(Some(_)) => ctx.obs.count("transient_read_errors_survived_with_the_right_message", 1),
+                        Ok(None) => ctx.obs.count("transient_read_errors_reported_as_errors", 1),
+                    }
+                }
+            }
             check_summary(&mut ctx.obs, &spec, &mut rng, &replay);
             // one cut short => error (raw body), any strict prefix => error
             if n > 0 {
@@ -426,7 +483,8 @@ distinct = distinct (cut count, layout seed) and raw values; oracle = fields at 
             }
         }
         // declared counts that do not fit the frame
-        for declared in [52u16, 53, 100, 1000, 65_535] {
+        // (counts whose low byte alone would fit - 256, 257, 300, 0x0133, 0x8000 + 7 - included)
+        for declared in [52u16, 53, 100, 255, 256, 257, 256 + rng.below(52) as u16, 0x0133, 1000, 0x8007, 0xFF00, 65_535] {
             let mut spec = gen_vcp(&mut rng, 51);
             spec.hdr.cuts = declared;
             let mh = MsgHeader::realistic(&mut rng, 5);
